@@ -11,6 +11,7 @@
 import Relic.Props.C01_MachO
 import Relic.Props.C01_MachOLocate
 import Relic.Proofs.MachOVerify
+import Relic.Proofs.MachOGuards
 namespace Relic.Props.C01
 open Relic Relic.MachO Relic.CodeDir
 
@@ -32,7 +33,7 @@ theorem macho_verify_of_locate (H : Bytes → Bytes) (f : Bytes) (p : SignParams
         zeros (so.plan.po.sigBufLen - (render H (hashSizeOf p.hash) (superblob (hashSizeOf p.hash) so.signed cms)).length)) :
     ∃ vp, verifyFile g = .ok vp ∧ vp.sigOff = so.plan.po.sigStart ∧ vp.sigLen = so.plan.po.sigBufLen ∧
       vp.final = .ok () ∧ ∀ c ∈ vp.checks, H c.stream = c.expected := by
-  obtain ⟨p', _, hsb, hhash, hrep'⟩ := MachO.sign_pieces f p so hsign
+  obtain ⟨p', _, hsb, hhash, hrep'⟩ := MachO.sign_pieces f p so (sign_orig_of_sign f p so hsign)
   rw [← hhash] at hH hfit hslice
   obtain ⟨hoff, _, _⟩ := locate_bounds g _ _ hloc
   have hpre' := take_length_of_take g _ _ hpre
@@ -46,8 +47,10 @@ theorem macho_verify_of_locate (H : Bytes → Bytes) (f : Bytes) (p : SignParams
     `macho_sign_then_verify_full` in its corrected form (`macho_sign_then_verify_full` itself is false as written:
     `not_macho_sign_then_verify_full`).  For every hash function `H` with values of the advertised size, every image
     `machos.Sign` accepts that is `Regular` (C01_MachOLocate: the verifier's parser reads the input's load commands, at most
-    one LC_CODE_SIGNATURE of size 16, commands fill sizeofcmds when one is added (F-MACHO-4), __LINKEDIT command kind matches
-    the magic, header below the end of code, old signature inside the file, reserved region ≤ 10^7 bytes (F-MACHO-3)),
+    one LC_CODE_SIGNATURE of size 16, __LINKEDIT command kind matches the magic, header below the end of code, old signature
+    inside the file and itself ≤ 10^7 bytes; that the commands fill sizeofcmds when one is added (F-MACHO-4) and that a fresh
+    region is ≤ 10^7 bytes (F-MACHO-3) is no longer assumed: the repaired `scanFile` / `Sign` test it, `regular_noSlack` /
+    `regular_small`),
     every signing parameter set without rep-specific slot and every CMS blob of more than 8 bytes whose embedded signature
     fits the reserved region: the patch set applies, and `machos.Verify` on the written file — `debug/macho`'s
     load-command walk over the patched header, `readSigBlob`, `parseSignature`, the special slots, `VerifyPages` — ends in
@@ -73,12 +76,12 @@ example : ∃ so g vp, sign fGood p0 = .ok so ∧
     signedFile fGood so.plan.po (render machoH 32 (superblob 32 so.signed (List.replicate 9 7))) = .ok g ∧
     verifyFile g = .ok vp ∧ vp.sigOff = 120 ∧ vp.final = .ok () ∧ ∀ c ∈ vp.checks, machoH c.stream = c.expected := by
   obtain ⟨so, hs, R, e1, e2⟩ := macho_regular_demo
-  have hx := sign_of_scan fGood p0 mGood scan_fGood
+  have hx := (sign_of_scan fGood p0 mGood scan_fGood).symm.trans (sign_orig_of_sign fGood p0 so hs)
   have hb : (match signFrom p0 (planFrom fGood mGood (hashSizeOf p0.hash) ((p0.entitlement.map (·.length)).getD 0)
         ((p0.requirements.map (·.length)).getD 0)) with
       | .ok so => decide ((render machoH 32 (superblob 32 so.signed (List.replicate 9 7))).length ≤ 16392)
       | _ => false) = true := by decide +kernel
-  rw [← hx, hs] at hb
+  rw [hx] at hb
   simp only [decide_eq_true_eq] at hb
   obtain ⟨g, vp, a, b, c, _, d, e⟩ := macho_sign_then_verify_end_to_end machoH fGood p0 so (List.replicate 9 7)
     (by intro x; simp [machoH, p0, hashSizeOf]) (by decide) rfl hs R (by rw [e2]; exact hb)
@@ -86,30 +89,92 @@ example : ∃ so g vp, sign fGood p0 = .ok so ∧
 
 /-- **macho_reserved_size.** The region `machos.Sign` reserves for the signature is the old signature region when that is at
     least as large as the estimate `codeSize·(20+hashSize)/4096 + |entitlement| + |requirements| + 16384`, and the estimate
-    rounded up to a multiple of 8 otherwise.  There is no upper limit. -/
+    rounded up to a multiple of 8 otherwise. -/
 theorem macho_reserved_size (f : Bytes) (p : SignParams) (so : SignOut) (hsign : sign f p = .ok so) :
     let est : Int := Int.tdiv (so.plan.m.codeSize * (20 + hashSizeOf p.hash : Nat)) 4096 +
       (((p.entitlement.map (·.length)).getD 0) + ((p.requirements.map (·.length)).getD 0) : Nat) + 16384
     ((so.plan.m.sigLen : Int) ≥ est ∧ so.plan.po.sigBufLen = so.plan.m.sigLen) ∨
     (¬ (so.plan.m.sigLen : Int) ≥ est ∧ so.plan.po.sigBufLen = align est.toNat 8) := by
-  obtain ⟨_, hplan, _, _, _⟩ := MachO.sign_pieces f p so hsign
+  obtain ⟨_, hplan, _, _, _⟩ := MachO.sign_pieces f p so (sign_orig_of_sign f p so hsign)
   obtain ⟨_, hpo⟩ := plan_pieces f _ _ _ so.plan hplan
   exact patchSignature_sigBufLen _ _ _ _ hpo
 
-/-- **macho_oversize_refused** (finding F-MACHO-3).  Whenever the reserved region exceeds the 10^7 bytes `readSigBlob` is
-    willing to read — by `macho_reserved_size`: any image without a big-enough old region whose code exceeds about
-    `(10^7 − 16384)·4096/(20+hashSize)` bytes, 786 MB for SHA-256 — NO file is located with that region, whatever the
-    patch application produced: what `machos.Sign` wrote with exit status 0 is refused by `machos.Verify`
-    ("unreasonably large LC_CODE_SIGNATURE").  Replayed on the real code with an 800 MiB image (harness/cmd/machobig). -/
-theorem macho_oversize_refused (f : Bytes) (p : SignParams) (so : SignOut) (_hsign : sign f p = .ok so)
+/-- **macho_oversize_refused_orig** (finding F-MACHO-3, fixed in /repo 5805b39; about the tree BEFORE the fix: `signOrig`).
+    Whenever the reserved region exceeded the 10^7 bytes `readSigBlob` is willing to read — any image without a big-enough
+    old region whose code exceeds about `(10^7 − 16384)·4096/(20+hashSize)` bytes, 786 MB for SHA-256 — NO file is located
+    with that region, whatever the patch application produced: what `machos.Sign` wrote with exit status 0 was refused by
+    `machos.Verify` ("unreasonably large LC_CODE_SIGNATURE").  Replayed on the real code with an 800 MiB image
+    (harness/cmd/machobig).  (`MachO.large_signature_refused` is the constructive form: the file exists and `locate` answers
+    `err "toolarge"`.) -/
+theorem macho_oversize_refused_orig (f : Bytes) (p : SignParams) (so : SignOut) (_hsign : signOrig f p = .ok so)
     (hbig : 10000000 < so.plan.po.sigBufLen) (g : Bytes) :
     locate g ≠ .ok (so.plan.po.sigStart, so.plan.po.sigBufLen) := by
   intro h
   have := (locate_bounds g _ _ h).2.1
   omega
 
-/-- the threshold in numbers: an estimate above 10^7 is reached by 800 MiB of code with SHA-256 (32-byte slots), not by 700 MiB -/
+/-- **macho_sign_refuses_oversize** (current tree, fix F-MACHO-3).  When the old signature region (if any) is smaller than
+    the estimate, so that a fresh region has to be reserved, and the estimate rounded up to a multiple of 8 exceeds the 10^7
+    bytes `readSigBlob` reads, `machos.Sign` refuses (`image too large`): nothing is written.  (`hr`: the int64 product
+    `codeSize·(20+hashSize)` does not wrap, i.e. `codeSize < 2^63/(20+hashSize)`.) -/
+theorem macho_sign_refuses_oversize (f : Bytes) (p : SignParams) (m : Markers) (hs : scan f = .ok m)
+    (hr : ¬ estRange m (hashSizeOf p.hash))
+    (hlt : (m.sigLen : Int) < estI m (hashSizeOf p.hash) ((p.entitlement.map (·.length)).getD 0) ((p.requirements.map (·.length)).getD 0))
+    (hbig : align (estI m (hashSizeOf p.hash) ((p.entitlement.map (·.length)).getD 0)
+      ((p.requirements.map (·.length)).getD 0)).toNat 8 > 10000000) :
+    sign f p = .err "signtoolarge" :=
+  sign_refuses_oversize f p m hs hr ⟨hlt, hbig⟩
+
+/-- **macho_fresh_region_small** (current tree): a region `machos.Sign` reserves afresh is at most 10^7 bytes — no hypothesis -/
+theorem macho_fresh_region_small (f : Bytes) (p : SignParams) (so : SignOut) (hsign : sign f p = .ok so)
+    (hfresh : so.plan.po.sigBufLen ≠ so.plan.m.sigLen) : so.plan.po.sigBufLen ≤ 10000000 := by
+  obtain ⟨_, _, hg⟩ := sign_inv' f p so hsign
+  rcases macho_reserved_size f p so hsign with ⟨_, h2⟩ | ⟨h1, h2⟩
+  · exact absurd h2 hfresh
+  · rw [h2]
+    unfold sizeGuard estI at hg
+    by_cases c : align (Int.tdiv (so.plan.m.codeSize * (20 + hashSizeOf p.hash : Nat)) 4096 +
+        (((p.entitlement.map (·.length)).getD 0) + ((p.requirements.map (·.length)).getD 0) : Nat) + 16384).toNat 8 > 10000000
+    · exact absurd ⟨by omega, c⟩ hg
+    · omega
+
+/-- **macho_oversize_only_by_reuse** (current tree): a successful `machos.Sign` names a region of more than 10^7 bytes only
+    when it reuses the image's own old region of that size -/
+theorem macho_oversize_only_by_reuse (f : Bytes) (p : SignParams) (so : SignOut) (hsign : sign f p = .ok so)
+    (hbig : 10000000 < so.plan.po.sigBufLen) :
+    so.plan.po.sigBufLen = so.plan.m.sigLen ∧ 10000000 < so.plan.m.sigLen := by
+  by_cases c : so.plan.po.sigBufLen = so.plan.m.sigLen
+  · exact ⟨c, by omega⟩
+  · have := macho_fresh_region_small f p so hsign c
+    omega
+
+/-- **macho_reused_oversize_region_refused** (current tree; what fix F-MACHO-3 leaves open, and why `Regular.oldSmall` is
+    NEEDED).  A `RegularImage` whose own old signature region is at least as large as the estimate AND larger than 10^7
+    bytes (offsets within 32 bits, as they are when read from the 32-bit fields of LC_CODE_SIGNATURE): `machos.Sign` succeeds
+    (the guard `markers.sigLen < estimatedSize && …` does not fire), the signed file exists, its prefix is the hashed
+    stream — and the locator refuses it ("unreasonably large LC_CODE_SIGNATURE").  The input is itself an image relic's
+    verifier refuses for the same reason.  Replay on the real code: harness/cmd/machobig reuse. -/
+theorem macho_reused_oversize_region_refused (f : Bytes) (p : SignParams) (so : SignOut) (blob : Bytes)
+    (hs : sign f p = .ok so) (R : RegularImage f so)
+    (hbig : 10000000 < so.plan.po.sigBufLen) (h32 : so.plan.po.sigStart < 2 ^ 32 ∧ so.plan.po.sigBufLen < 2 ^ 32)
+    (hb : blob.length ≤ so.plan.po.sigBufLen) :
+    so.plan.po.sigBufLen = so.plan.m.sigLen ∧
+    ∃ g, signedFile f so.plan.po blob = .ok g ∧ locate g = .err "toolarge" ∧ g.take so.plan.po.sigStart = so.plan.stream := by
+  refine ⟨(macho_oversize_only_by_reuse f p so hs hbig).1, ?_⟩
+  exact large_signature_refused f p so blob (loadsOf f) (sign_orig_of_sign f p so hs) R.accepts R.oneSig
+    (regular_noSlack f p so hs R) R.leKind R.hdrBelow R.oldInside hbig h32 hb
+
+/-- the threshold in numbers: an estimate above 10^7 is reached by 800 MiB of code with SHA-256 (32-byte slots), not by 700 MiB;
+    so the hypotheses `hlt`, `hbig` of `macho_sign_refuses_oversize` are satisfiable (an unsigned image, `sigLen = 0`, with
+    800 MiB of code), and `hr` holds for every code size below 2^57 -/
 example : align (Int.tdiv ((800 * 2 ^ 20 : Int) * (20 + 32 : Nat)) 4096 + (0 : Nat) + 16384).toNat 8 > 10000000 ∧
     align (Int.tdiv ((700 * 2 ^ 20 : Int) * (20 + 32 : Nat)) 4096 + (0 : Nat) + 16384).toNat 8 ≤ 10000000 := by decide
+
+/-- hypotheses of `macho_sign_refuses_oversize` on concrete markers: an unsigned 64-bit image with 800 MiB of code, SHA-256
+    (the guard fires); with 700 MiB it does not -/
+example :
+    let m (cs : Int) : Markers := ⟨false, 0xfeedfacf, 0, 0, 0, 32, 0, 0, 104, 2 ^ 63 - 1, cs, 104⟩
+    ¬ estRange (m (800 * 2 ^ 20)) 32 ∧ sizeGuard (m (800 * 2 ^ 20)) (estI (m (800 * 2 ^ 20)) 32 0 0) ∧
+    ¬ sizeGuard (m (700 * 2 ^ 20)) (estI (m (700 * 2 ^ 20)) 32 0 0) := by decide
 
 end Relic.Props.C01
